@@ -309,8 +309,61 @@ static void op_ct_rel(int argc, char **argv) {
 	fputc('\n', OUT);
 }
 
+/* ct_scan <fn> <j> <count> <seed> <bits> : the same routine on the same base with <count> pseudo-random secret scalars of exactly <bits>
+ * bits (xorshift64* from <seed>): every operation log must equal the first one. Rare value-dependent paths (one scalar in a thousand)
+ * show up here; prints "scan=<count> same=1 eq=1" or the first scalar whose log differs together with both log lengths */
+static unsigned long long xs_state;
+static unsigned long long xs_next(void) {
+	xs_state ^= xs_state >> 12; xs_state ^= xs_state << 25; xs_state ^= xs_state >> 27;
+	return xs_state * 2685821657736338717ULL;
+}
+static void op_ct_scan(int argc, char **argv) {
+	if (argc < 6) { fprintf(OUT, "bad-args\n"); return; }
+	const char *f = argv[1];
+	int count = parse_int(argv[3]), bits = parse_int(argv[5]), caught = 0, n1 = 0, eq = 1, same = 1, n2 = 0;
+	raw_t r; bn_t j, k, n, bad; bn_null(j); bn_new(j); bn_null(k); bn_new(k); bn_null(n); bn_new(n); bn_null(bad); bn_new(bad);
+	raw_parse(&r, argv[2]); raw_to_bn(j, &r);
+	xs_state = parse_u64(argv[4]) | 1;
+	if (bits < 2 || bits > RLC_BN_BITS - 64 || count < 2) { fprintf(OUT, "bad-args\n"); return; }
+	RLC_TRY {
+		ep2_t p2, c2, d2; ep2_null(p2); ep2_new(p2); ep2_null(c2); ep2_new(c2); ep2_null(d2); ep2_new(d2);
+		ep_t p1, c1, d1; ep_null(p1); ep_new(p1); ep_null(c1); ep_new(c1); ep_null(d1); ep_new(d1);
+		gt_t a, c, d; gt_null(a); gt_new(a); gt_null(c); gt_new(c); gt_null(d); gt_new(d);
+		int kind = !strcmp(f, "gt_exp_sec") ? 0 : (!strcmp(f, "ep2_lwreg") || !strcmp(f, "g2_mul_sec")) ? 1 : !strcmp(f, "g1_mul_sec") ? 2 : -1;
+		if (kind < 0) { fprintf(OUT, "unknown-ct-scan %s\n", f); return; }
+		if (kind == 0) { gt_get_gen(a); fp12_exp(a, a, j); pc_get_ord(n); }
+		if (kind == 1) { ep2_curve_get_gen(p2); ep2_mul_basic(p2, p2, j); ep2_curve_get_ord(n); }
+		if (kind == 2) { ep_curve_get_gen(p1); ep_mul_basic(p1, p1, j); ep_curve_get_ord(n); }
+		for (int t = 0; t < count && same; t++) {
+			int digs = (bits + RLC_DIG - 1) / RLC_DIG;
+			bn_grow(k, digs);
+			for (int i = 0; i < digs; i++) k->dp[i] = (dig_t)xs_next();
+			k->used = digs; k->sign = RLC_POS;
+			if (bits % RLC_DIG) k->dp[digs - 1] &= (((dig_t)1 << (bits % RLC_DIG)) - 1);
+			bn_set_bit(k, bits - 1, 1);
+			bn_trim(k);
+			start();
+			if (kind == 0) gt_exp_sec(c, a, k); else if (kind == 1) { if (f[0] == 'e') ep2_mul_lwreg(c2, p2, k); else g2_mul_sec(c2, p2, k); } else g1_mul_sec(c1, p1, k);
+			stop();
+			if (t == 0) { memcpy(LOG1, LOG, LN + 1); n1 = LN; }
+			else if (LN != n1 || memcmp(LOG1, LOG, n1) != 0) { same = 0; n2 = LN; bn_copy(bad, k); }
+			/* the value is checked on a sample only (the basic algorithms are slow) */
+			if (t < 3 || !same) {
+				if (kind == 0) { fp12_exp(d, a, k); eq &= (fp12_cmp(c, d) == RLC_EQ); }
+				if (kind == 1) { bn_mod(j, k, n); ep2_mul_basic(d2, p2, j); eq &= (ep2_cmp(c2, d2) == RLC_EQ); }
+				if (kind == 2) { bn_mod(j, k, n); ep_mul_basic(d1, p1, j); eq &= (ep_cmp(c1, d1) == RLC_EQ); }
+			}
+		}
+	} RLC_CATCH_ANY { caught = 1; }
+	stop();
+	if (take_err() || caught) { fprintf(OUT, "err\n"); return; }
+	fprintf(OUT, "scan=%d same=%d eq=%d n1=%d", count, same, eq, n1);
+	if (!same) { fprintf(OUT, " n2=%d k=", n2); bn_out(bad); }
+	fputc('\n', OUT);
+}
+
 const op_t ops_ct[] = {
-	{"ct_rel", op_ct_rel},
+	{"ct_rel", op_ct_rel}, {"ct_scan", op_ct_scan},
 	{"ct_prim", op_ct_prim}, {"ct_trace", op_ct_trace},
 	{NULL, NULL}
 };
